@@ -35,6 +35,11 @@ CLAIMS = {
         "Trusted: symx interception layer (rolling/convolve/percentile models are compared with numpy/pandas by setup.sh's selfcheck), z3; sqrt uninterpreted. Not covered: biweight numerics beyond n = 2, modal_location, unweighted savgol (compiled scipy); linear filters carry a 1e-9 slack.",
         "DESIGN.md 4/C19",
     ),
+    "C20": (
+        "The real export_bed (show all/ploidy/variant), export_vcf/segments2vcf (records parsed back from the emitted text), export_seg/write_seg, merge_samples + fmt_cdt/fmt_jtv and export_nexus_basic run on segment tables with symbolic start (0 reachable), end, probes and either a symbolic cn column or a symbolic log2 (cn = round(r*2^log2), exp2 uninterpreted), for ploidy 1..6 x sexes x naming x PAR genome; symbolic integers travel through the emitted text as unique tokens. z3 proves per path: a row/record is emitted exactly when cn differs from ploidy / the expected copy number, 0-based BED coordinates, POS = max(start, 1), END, DEL/DUP, signed SVLEN, CN for gains, SEG rows per sample with start + 1, one row per bin with its label and each sample's log2 in its own column, mismatching bins and duplicate ids refused.",
+        "Trusted: symx interception layer, z3, exp2 lemmas; read_cna is stubbed to hand in the harness's in-memory arrays (file parsing is C08). Digits of emitted floats are opaque tokens.",
+        "DESIGN.md 4/C20",
+    ),
     "C06": (
         "Every feasible path of the real merge/flatten/subtract/intersection/subdivide/resize_ranges/total_range_size code on tables of <= 3 rows (quick; 4 thorough) with fully symbolic integer coordinates in [0, 10^6] is enumerated by z3; on each path the base-exactness oracle (one universally quantified position x) and the structural clauses are discharged as unsat. A bounded model check of the real code, not a proof: nothing is claimed beyond the row bounds.",
         "Trusted: the symx interception layer (object-dtype pandas semantics = int64 semantics, validated by replaying explored paths on the untouched code), z3; avg/min sizes of subdivide concrete.",
